@@ -284,6 +284,7 @@ structure Acc where
   cfg : Cfg
   cur : World TState
   lk : String
+  clean : Bool
   prev : Option (DOp × Bool × Resp × World TState × Bool)
   out : Array String
 
@@ -294,7 +295,7 @@ def parseLk (s : String) : List (Addr × Denom × String × String) :=
 def processLine (acc : Acc) (line : String) : Acc :=
   if line.startsWith "E " then
     let (e, c) := parseEnv (kvOf ((line.drop 2).toString.splitOn " "))
-    { acc with env := e, cfg := c }
+    { acc with env := e, cfg := c, clean := true }
   else if line.startsWith "S " then
     let kv := kvOf ((line.drop 2).toString.splitOn " ")
     { acc with cur := applyMod emptyWorld kv, lk := kv.get "lk", prev := none }
@@ -325,10 +326,10 @@ def processLine (acc : Acc) (line : String) : Acc :=
           (if m.st.sendDefault != implPost.st.sendDefault || !mapEq m.st.sendOverride implPost.st.sendOverride then ["send"] else []) ++
           (if m.st.mn != implPost.st.mn then ["nonce"] else []) ++
           (match m.tok with | some t => if tokEq t implPost.evm then [] else ["token"] | none => []) ++
-          (if m.ok == implOk && m.evmBad then ["evm"] else [])
+          (if m.ok == implOk && m.evmBad && akv.get "evm" != "?" then ["evm"] else [])
         let tr : Tr := { env := acc.env, cfg := acc.cfg, pre := acc.cur, op := op, ok := implOk, resp := implResp,
                          post := implPost, answers := rec_.map (·.2), honest := dev == "-",
-                         lookups := parseLk lk, prev := acc.prev }
+                         lookups := parseLk lk, clean := acc.clean, prev := acc.prev }
         let viol := monitors.filterMap (fun (pid, name, f) => if f tr then none else some s!"{seq} V {pid} {name}")
         let tag := s!"{branchOf acc.cur.st acc.cur.evm op}/{if implOk then "ok" else "rej"}/{devClass dev}"
         let l :=
@@ -341,7 +342,16 @@ def processLine (acc : Acc) (line : String) : Acc :=
                (if comps.contains "nonce" then s!"modelMn={m.st.mn} implMn={implPost.st.mn} " else "") ++
                (if comps.contains "token" then (match m.tok with | some t => tokDiff t implPost.evm | none => "") ++ " " else "") ++
                (if comps.contains "evm" then m.evmNote else "")
-        { acc with cur := implPost, lk := lk, prev := some (op, implOk, implResp, acc.cur, dev == "-"),
+        -- what takes a world out of the scope of C03 (`HOpOK`): an accepted deviation, a forged receipt, a
+        -- self-destruct, and an accepted ConvertCoin with a denomination of hex-address form (finding E1:
+        -- the operation itself is still monitored, the world after it is no longer closed)
+        let taint := implOk && (dev != "-" ||
+          (match op with
+           | .k (.hook _) => true
+           | .sd _ => true
+           | .k (.convertCoin m) => isHexAddress m.denom.s
+           | _ => false))
+        { acc with cur := implPost, lk := lk, clean := acc.clean && !taint, prev := some (op, implOk, implResp, acc.cur, dev == "-"),
                    out := (acc.out.push l) ++ viol.toArray }
     | _ => { acc with out := acc.out.push "? E malformed" }
   else acc
@@ -358,6 +368,6 @@ partial def loop (h : IO.FS.Stream) (o : IO.FS.Stream) (acc : Acc) : IO Unit := 
 def main : IO Unit := do
   let i ← IO.getStdin
   let o ← IO.getStdout
-  loop i o { env := emptyEnv, cfg := { modAddr := "", zero := "" }, cur := emptyWorld, lk := "", prev := none, out := #[] }
+  loop i o { env := emptyEnv, cfg := { modAddr := "", zero := "" }, cur := emptyWorld, lk := "", clean := true, prev := none, out := #[] }
 
 end CV.Drv.Erc20
